@@ -11,7 +11,7 @@ Keys may hold `${project.groupId}` / `${pom.version}`-style placeholders (`Resol
 
 Not modelled (the generator stays outside): two entries of one section with the same interpolated key (deps.dev keeps the
 first), local parent POMs (`parent@path` origins), the
-`<parent>` element itself, plugins, dependencyManagement imports, active profiles, property values that
+`<parent>` element itself, plugins outside pluginManagement, dependencyManagement imports, active profiles, property values that
 reference other properties.
 -/
 import Scalibr.Spec.PomProps
@@ -25,7 +25,9 @@ def sJar : Str := "jar".toList
 def normTyp (t : Str) : Str := if t = [] then sJar else t
 
 /-- one `<dependency>`; `origin` as `buildOriginalRequirements` spells it:
-"" (project dependencies), "management", "profile@ID", "profile@ID@management" -/
+"" (project dependencies), "management", "profile@ID", "profile@ID@management",
+"plugin@GROUP:ARTIFACT" (dependencies of a build/pluginManagement plugin; GROUP empty when the plugin has no <groupId>; Read
+interpolates these like project dependencies and lists them among the requirements for updates) -/
 structure Dep where
   origin : Str
   g : Str
